@@ -131,7 +131,8 @@ pub struct Prior {
 
 #[derive(Debug, Clone)]
 pub enum Case {
-    Set { row: usize, prior: Prior, vals: Vec<Val> },
+    /// sibling: another accessor of the same view and value type, called first with vals[0] (two fields then hold the same value)
+    Set { row: usize, prior: Prior, vals: Vec<Val>, sibling: Option<usize> },
     Getter { which: usize, a: Vec<String>, b: Vec<String>, flag: u8 },
 }
 
@@ -316,7 +317,7 @@ fn apply(live: &mut Live, ri: usize, idx: usize, val: &Val) -> Result<Val, Failu
     })
 }
 
-fn check_set(ri: usize, prior: &Prior, vals: &[Val]) -> CheckResult {
+fn check_set(ri: usize, prior: &Prior, vals: &[Val], sibling: Option<usize>) -> CheckResult {
     let row = &ROWS[ri];
     let (text, idx) = build_doc(row, prior);
     let mut live = match row.view {
@@ -327,6 +328,13 @@ fn check_set(ri: usize, prior: &Prior, vals: &[Val]) -> CheckResult {
     };
     let names = alt_names(row);
     let is_target = |n: &str| names.iter().any(|x| x.eq_ignore_ascii_case(n));
+    if let Some(si) = sibling {
+        // another field of the same paragraph receives the very value that the accessor under test is about to store
+        let srow = &ROWS[si];
+        let got = apply(&mut live, si, idx, &vals[0])?;
+        let want = if vals[0].is_clearing(srow.kind) && srow.kind == "BOOL_CLEAR" { Val::OBool(Some(false)) } else { vals[0].clone() };
+        ensure!(same_val(&got, &want, srow.kind)?, "getter-returns-set-value", "{:?}::{}({:?}) then {}() = {:?} (sibling call before {}), text {:?}", srow.view, srow.setter, vals[0], srow.getter, got, row.setter, live.text());
+    }
     for (step, val) in vals.iter().enumerate() {
         let old = live.text();
         let old_items = live.items(idx);
@@ -697,7 +705,7 @@ impl PropImpl for C15 {
     }
     fn expected_labels(&self) -> Vec<&'static str> {
         let mut v: Vec<&'static str> = ROWS.iter().map(|r| r.label).collect();
-        v.extend(["prior:field-present", "prior:field-absent", "prior:comments-around-field", "prior:fields-before", "prior:fields-after", "prior:second-paragraph", "several-setter-calls", "clearing-setter", "getter:comma-lists", "getter:space-lists", "getter:checksum-triples", "getter:yes-no-flags", "getter:dep3", "getter:control-roles", "getter:changes", "getter:source-vcs", "getter:copyright"]);
+        v.extend(["prior:field-present", "prior:field-absent", "prior:comments-around-field", "prior:fields-before", "prior:fields-after", "prior:second-paragraph", "several-setter-calls", "clearing-setter", "sibling-field-holds-the-same-value", "getter:comma-lists", "getter:space-lists", "getter:checksum-triples", "getter:yes-no-flags", "getter:dep3", "getter:control-roles", "getter:changes", "getter:source-vcs", "getter:copyright"]);
         v
     }
     fn budget(&self, tier: Tier) -> Budget {
@@ -724,7 +732,7 @@ impl PropImpl for C15 {
             other_paragraph: s & 4 == 4,
             mail_form: s == 3 || s == 6,
         };
-        Case::Set { row, prior, vals: vec![val] }
+        Case::Set { row, prior, vals: vec![val], sibling: None }
     }
     fn decode(&self, _ctx: &mut Ctx, t: &mut Tape) -> Case {
         if t.chance(1, 5) {
@@ -748,13 +756,16 @@ impl PropImpl for C15 {
         while t.more(vals.len(), 1, 3, 1, 4) {
             vals.push(gen_val(t, kind));
         }
-        Case::Set { row, prior, vals }
+        let siblings: Vec<usize> = (0..ROWS.len()).filter(|&i| ROWS[i].view == ROWS[row].view && ROWS[i].kind == kind && !ROWS[i].field.eq_ignore_ascii_case(ROWS[row].field)).collect();
+        let sibling = if !siblings.is_empty() && t.chance(1, 3) { Some(siblings[t.below(siblings.len())]) } else { None };
+        Case::Set { row, prior, vals, sibling }
     }
     fn classify(&self, ctx: &mut Ctx, case: &Case) {
         ctx.set_hash(&format!("{:?}", case));
         match case {
-            Case::Set { row, prior, vals } => {
+            Case::Set { row, prior, vals, sibling } => {
                 ctx.label(ROWS[*row].label);
+                ctx.label_if(sibling.is_some(), "sibling-field-holds-the-same-value");
                 ctx.label(if prior.stale.is_some() { "prior:field-present" } else { "prior:field-absent" });
                 ctx.label_if(prior.comment_before_target || prior.comment_after_target, "prior:comments-around-field");
                 ctx.label_if(prior.fields_before > 0, "prior:fields-before");
@@ -772,15 +783,15 @@ impl PropImpl for C15 {
     }
     fn check(&self, _ctx: &mut Ctx, case: &Case) -> CheckResult {
         match case {
-            Case::Set { row, prior, vals } => check_set(*row, prior, vals),
+            Case::Set { row, prior, vals, sibling } => check_set(*row, prior, vals, *sibling),
             Case::Getter { which, a, b, flag } => check_getter(*which, a, b, *flag),
         }
     }
     fn render(&self, case: &Case) -> String {
         match case {
-            Case::Set { row, prior, vals } => {
+            Case::Set { row, prior, vals, sibling } => {
                 let r = &ROWS[*row];
-                format!("{:?}::{} / {}  (field {:?}, kind {})\nstart document {:?}\nvalues {:?}", r.view, r.setter, r.getter, r.field, r.kind, build_doc(r, prior).0, vals)
+                format!("{:?}::{} / {}  (field {:?}, kind {})\nstart document {:?}\nvalues {:?}\nsibling called first with values[0]: {:?}", r.view, r.setter, r.getter, r.field, r.kind, build_doc(r, prior).0, vals, sibling.map(|i| ROWS[i].setter))
             }
             c => format!("{:?}", c),
         }
